@@ -28,7 +28,7 @@ claimed = {
   design="§3 C16"),
  "C07": dict(
   technique="(a) property-based testing (rapid): differential of the descriptor-naming function against go/types.Identical over generated type pools with one-attribute near-miss mutants; (b) differential testing of rapid-generated multi-package programs (templates exercising run-time type identity and method tables) against gc",
-  text="(a) rapid generates multi-package Go source (named/alias/generic/interface declarations, composite type expressions, copies in other packages, near-miss mutants, equal-named local types), type-checks it in-process and compares, for every pair, equality of abi.Builder.TypeName (the link name that makes two run-time descriptors one) with types.Identical, in both directions. (b) programs composed of the generator's type-identity templates (assertions and type switches on values boxed in another package, sealed interfaces with promoted unexported methods, generic instances with same-named local types and composite type arguments from two packages of the same name, embedding, bound methods) are built by gc and by the llgo under test (O0, O2, O2+nogc) and must print the same tokens. Exploration only.",
+  text="(a) rapid generates multi-package Go source (named/alias/generic/interface declarations, composite type expressions, copies in other packages, near-miss mutants, equal-named local types), type-checks it in-process and compares, for every pair, equality of abi.Builder.TypeName (the link name that makes two run-time descriptors one) with types.Identical, in both directions. (b) programs composed of the generator's type-identity templates (assertions and type switches on values boxed in another package, sealed interfaces with promoted unexported methods, generic instances with same-named local types and composite type arguments from two packages of the same name, embedding, bound methods) are built by gc and by the llgo under test (O0, O2, O2+nogc) and must print the same tokens. Exploration only. The compiled job includes units with 324-676 (interface, type) pairs (run-time itab table growth) and method values / expressions of same-named types.",
   note="go/types.Identical and gc are trusted as references; reflect-level identity is C15's subject; three genuine findings of (a) are listed in known_findings.json and excluded by key.",
   design="§3 C07"),
  "C02": dict(
@@ -49,7 +49,7 @@ claimed = {
  "C03": dict(
   technique="differential testing with generated operand tuples (rapid) around every bound: llgo-compiled operation table vs the same functions executed natively",
   text="A fixed import-free program with 386 operation functions (every indexable kind x form x index type, make, conversions, nil dereference in every syntactic position, maps, assertions, division, channels, side-effect ordering) is compiled by the llgo under test at O0/O2/Oz/O2+nogc; rapid draws tuples around the bounds (half in range), nil-ness flags and repeat counts; each execution is compared with native gc execution for panic/no panic, error class, trace points, call order, surviving state, results and runtime.Error-ness. Exploration only.",
-  note="Panic texts compared by class; unspecified evaluation orders are not generated; make sizes small or absurd; three nil-dereference findings (no explicit nil checks) listed in known_findings.json.",
+  note="Panic texts compared by class; unspecified evaluation orders are not generated; make sizes small or absurd; three nil-dereference findings (no explicit nil checks) listed in known_findings.json. Divisors include locals that still hold their zero value (constant-folded by go/ssa).",
   design="§3 C03"),
  "C10": dict(
   technique="schedule exploration with a deterministic scheduler (rapid-drawn scripts and scheduling choices) over the lifted channel source, with a history monitor and a reference-model quiescence check; differential testing of rapid-generated channel programs compiled by llgo (run repeatedly on hardware threads, schedule-independent summaries) against the gc build",
@@ -58,7 +58,7 @@ claimed = {
   design="§3 C10, Appendix A/B"),
  "C11": dict(
   technique="(a) schedule exploration with a deterministic scheduler over the lifted semaphore / notify-list source, with counting invariants and a quiescence (lost wake-up) check; (b) rapid-generated litmus programs compiled by the llgo under test and run on hardware threads, observed outcomes checked against the exhaustively enumerated set of sequentially consistent interleavings",
-  text="(a) sema_llgo.go from the working tree runs against stand-in mutex/cond/once/atomics that are scheduling points; rapid draws acquire/release and Cond-shaped ticket/wait/notify scripts for 2-4 threads plus all scheduling decisions; invariants: acquires bounded by initial + releases, Wait returns only when a notification can cover its ticket, nobody stays blocked at quiescence while its wake-up condition holds. (b) litmus programs of 2-4 goroutines x 1-3 sync/atomic operations (Store/Load/Add/Swap/CompareAndSwap, function API, typed atomics and atomic.Pointer) on 2-3 variables, from ten classic shapes with substitutions or random, 60000 rounds each (thorough 400000) at O0 and O2; every observed outcome must be producible by some interleaving. Exploration.",
+  text="(a) sema_llgo.go from the working tree runs against stand-in mutex/cond/once/atomics that are scheduling points; rapid draws acquire/release and Cond-shaped ticket/wait/notify scripts for 2-4 threads plus all scheduling decisions; invariants: acquires bounded by initial + releases, Wait returns only when a notification can cover its ticket, nobody stays blocked at quiescence while its wake-up condition holds. (b) litmus programs of 2-4 goroutines x 1-3 sync/atomic operations (Store/Load/Add/Swap/CompareAndSwap, function API, typed atomics and atomic.Pointer) on 2-3 variables, from ten classic shapes with substitutions or random, 60000 rounds each (thorough 400000) at O0 and O2; every observed outcome must be producible by some interleaving. Exploration. Lost wake-ups of both primitives are decided from the history alone (tickets the completed Signal/Broadcast calls must have released; permits outstanding), not from the implementation's counters.",
   note="Fairness/liveness only in safety form; (b) is one-sided (a forbidden outcome proves a violation, its absence proves nothing) and is observed on x86-64 only; compiled Mutex/RWMutex/WaitGroup/Once/Cond stress programs are not part of these jobs.",
   design="§3 C11, Appendix A"),
  "C04": dict(
@@ -78,12 +78,12 @@ claimed = {
   design="§3 C08"),
  "C01": dict(
   technique="differential testing of rapid-generated multi-package programs (template grammar over the core language) against gc, compared per unit",
-  text="rapid composes import-free 5-package modules from 10-24 units drawn from 16 templates of the core language with random constants, types and package placement; each is built by gc and by the llgo under test at O0, O2 and O2+nogc (thorough: also Oz, O0+nogc, O1, O3) and compared unit by unit, plus process termination (normal, uncaught panic, run-time fault). Exploration only.",
+  text="rapid composes import-free 5-package modules from 10-24 units drawn from 16 templates of the core language with random constants, types and package placement; each is built by gc and by the llgo under test at O0, O2 and O2+nogc (thorough: also Oz, O0+nogc, O1, O3) and compared unit by unit, plus process termination (normal, uncaught panic, run-time fault). Exploration only. Templates added in the third round: several local copies of one by-value parameter, range over strings with truncated UTF-8 at the end, nested closures in same-named methods, many interface/type pairs.",
   note="A template grammar, not a free expression grammar: breadth comes from combining templates, constants, types and package splits; gc defines expected output; LLVM 14.",
   design="§3 C01"),
  "C14": dict(
   technique="differential testing of rapid-generated naming-hazard programs against gc (every entity returns its own token)",
-  text="Programs built only from the naming-hazard templates of the generator (two packages with the same name and identical declarations, nested closures in methods, closures in initialisers/init, generics instantiated with same-named local types from several packages, bound methods, dotted paths) are built by gc and llgo (O0, O2, O2+nogc) and must print identical tokens. Exploration only.",
+  text="Programs built only from the naming-hazard templates of the generator (two packages with the same name and identical declarations, nested closures in methods, closures in initialisers/init, generics instantiated with same-named local types from several packages, bound methods, dotted paths) are built by gc and llgo (O0, O2, O2+nogc) and must print identical tokens. Exploration only. Hazard templates include method values and method expressions of same-named types from two packages used in one package, and range-over-func bodies / func literals / deferred closures nested in same-named methods of two receiver types.",
   note="End-to-end only: a merged or mis-bound symbol shows as a wrong token or link failure; the naming functions are not checked in-process and mergeable definitions are not diffed; no linkname/export directives.",
   design="§3 C14"),
  "C09": dict(
@@ -93,17 +93,17 @@ claimed = {
   design="§3 C09"),
  "C15": dict(
   technique="differential testing of rapid-generated programs (type-pool grammar with values; reflect walker and fmt verb matrix) against gc, compared line by line per type",
-  text="rapid generates 8-22 named types in two packages (named basics, structs with tags / unexported / embedded value and pointer fields, generic structs and instances, named interfaces, named composites, a recursive struct, 0-3 methods on value and pointer receivers incl. String/Error/GoString) plus 4-10 unnamed composites, 1-3 values each; the program walks every type with reflect (kind, name, string, PkgPath, fields, tags, index paths, VisibleFields, method tables by index and by constant and computed name, implements/assignable/convertible, composite constructors), exercises the values (getters, Set/Convert/Append/MakeMap/MakeSlice/MakeChan round trips, every method through Value.Method and through a pointer, DeepEqual) and formats them with ~40 fmt verbs/flags, in three modes that vary which reflect entry points the program mentions (method-table pruning). Output under llgo (O0) must equal gc's. Exploration only.",
+  text="rapid generates 8-22 named types in two packages (named basics, structs with tags / unexported / embedded value and pointer fields, generic structs and instances, named interfaces, named composites, a recursive struct, 0-3 methods on value and pointer receivers incl. String/Error/GoString) plus 4-10 unnamed composites, 1-3 values each; the program walks every type with reflect (kind, name, string, PkgPath, fields, tags, index paths, VisibleFields, method tables by index and by constant and computed name, implements/assignable/convertible, composite constructors), exercises the values (getters, Set/Convert/Append/MakeMap/MakeSlice/MakeChan round trips, every method through Value.Method and through a pointer, DeepEqual) and formats them with ~40 fmt verbs/flags, in three modes that vary which reflect entry points the program mentions (method-table pruning). Output under llgo (O0) must equal gc's. Exploration only. Every program also carries DeepEqual probes over generated pointer graphs (cycles, shared nodes, interior pointers to first fields and array elements, pointers inside maps, slices and interfaces; variants differing in one place).",
   note="gc 1.24 is the reference; O0 only; excluded by construction: sizes/offsets of types containing func values, anything printing an address, byte/rune type arguments (C07 finding), structs ending in a zero-size field (C08 finding); four listed findings are mapped line by line (main package path, named func types, func Set round trip, nil pointer receivers not dereferenced).",
   design="§3 C15, §7"),
  "C13": dict(
   technique="stateful property-based testing (rapid): generated edit/rebuild histories over generated multi-package modules against a model of the inputs, plus pairwise reproducibility of package archives",
-  text="rapid generates a module main -> p1 -> ... (2-4 packages; per package a constant folded into importers at compile time, optionally an embedded file, a C file named by LLGoFiles, build-tag-selected files, init-carrying extra files) and a history of 4-10 steps (edit a constant of main / a dependency / the leaf, edit an embedded file with the same or another length, edit the C file, toggle the build tag, add / remove a source file, revert, rewrite unchanged, -O0/-O2, no-op rebuild, drop the module's cache entries, and a dedicated same-size-same-mtime edit). After every step the llgo under test rebuilds with the same cache directory; the program must print what the model computes from the current inputs. At the end two builds from an empty module cache must have byte-identical archive members. Exploration only.",
+  text="rapid generates a module main -> p1 -> ... (2-4 packages; per package a constant folded into importers at compile time, optionally an embedded file, a C file named by LLGoFiles, build-tag-selected files, init-carrying extra files) and a history of 4-10 steps (edit a constant of main / a dependency / the leaf, edit an embedded file with the same or another length, edit the C file, toggle the build tag, add / remove a source file, revert, rewrite unchanged, -O0/-O2, no-op rebuild, drop the module's cache entries, and a dedicated same-size-same-mtime edit). After every step the llgo under test rebuilds with the same cache directory; the program must print what the model computes from the current inputs. At the end two builds from an empty module cache must have byte-identical archive members. Exploration only. Modules may import declaration-only binding packages (LLGoPackage = decl) that forward constants of further packages, and package main may build types with reflect; the executables of two builds from an empty module cache must be identical as well (the entry module is never cached).",
   note="Drives the llgo command line; -X overrides (not reachable from the CLI) and behaviour-affecting environment variables are not generated; the final executable is not compared (only package archives); same-size-same-mtime edits are a listed finding.",
   design="§3 C13, §7"),
  "C19": dict(
   technique="differential testing of rapid-generated Go programs using the Python bindings against CPython running a generated script of the same computation, compared line by line per unit",
-  text="rapid generates programs of 12-30 units over three Go packages using github.com/goplus/lib/py: values (64-bit signed/unsigned integers incl. the range limits, floats by bit pattern incl. NaN/inf/-0/denormals, valid UTF-8 strings incl. multi-byte and NUL, byte strings, nested lists and tuples) are converted to Python objects and read back; bound builtins/math functions are called with order-sensitive positional arguments (divmod, round, format, max/min/sum, sorted, fmod, atan2, copysign, ldexp, gcd, comb, isqrt); callables fetched by name are invoked through CallNoArgs / CallOneArg / CallObject / CallFunctionObjArgs / Call with 0-6 arguments; module attributes are looked up by name; package-level initialisers in two other Go packages use Python modules before main. The same computation runs as a generated script under /usr/bin/python3 (the CPython 3.11 the program links) and all lines (printed through ascii()) must agree. Exploration only.",
+  text="rapid generates programs of 12-30 units over three Go packages using github.com/goplus/lib/py: values (64-bit signed/unsigned integers incl. the range limits, floats by bit pattern incl. NaN/inf/-0/denormals, valid UTF-8 strings incl. multi-byte and NUL, byte strings, nested lists and tuples) are converted to Python objects and read back; bound builtins/math functions are called with order-sensitive positional arguments (divmod, round, format, max/min/sum, sorted, fmod, atan2, copysign, ldexp, gcd, comb, isqrt); callables fetched by name are invoked through CallNoArgs / CallOneArg / CallObject / CallFunctionObjArgs / Call with 0-6 arguments; module attributes are looked up by name; package-level initialisers in two other Go packages use Python modules before main. The same computation runs as a generated script under /usr/bin/python3 (the CPython 3.11 the program links) and all lines (printed through ascii()) must agree. Exploration only. Lists and tuples also take native Go integers of every width and sign as run-time operands, and one unit class binds a module and its dotted submodule (os, os.path) in the same Go package.",
   note="O0, linux/amd64, libpython3.11; 'imported once' is observed only through use from several packages' initialisers (import counts are not instrumented); two defective bindings of the third-party module goplus/lib v0.3.1 are not used ((*Object).CStrAndLen, math.Hypot's typed variadic) and its missing bytes constructor is bound directly in the generated program.",
   design="§3 C19, §7"),
 }
